@@ -144,6 +144,17 @@ def run_case(case, rng):
             case.count("value_entries_compared")
             case.check(abs(V[i] - sol.V[i]) <= tol, "state_value!=optimal-discounted-value",
                        f"V[{S[i]!r}]={V[i]!r} V*={sol.V[i]!r} tol={tol:.3g}", **facts)
+        # the other accessors of the same result: action values are the one-step look-ahead of the state values, and the
+        # initial value is their expectation under the initial distribution
+        QA = Rd.mat(res.action_value, S, A)
+        Qref = Rf.q_from_v(*Rf._masked(arr, pinned), gamma, V, arr.avail)
+        badq = [(i, j) for i in range(len(S)) for j in range(len(A))
+                if arr.avail[i, j] and not pinned[i] and abs(QA[i, j] - Qref[i, j]) > tol]
+        case.count("action_value_entries_compared", int(arr.avail.sum()))
+        case.check(not badq, "action_value!=one-step-look-ahead-of-state_value",
+                   lambda: f"at {[(S[i], A[j], QA[i, j], Qref[i, j]) for i, j in badq[:2]]!r}", **facts)
+        iv = float(res.initial_value)
+        case.check(abs(iv - sum(p * V[arr.si[s]] for s, p in sp.init)) <= 1e-9 * max(1.0, sol.scale), "initial_value!=E[state_value]", repr(iv), **facts)
         if ok_rows:
             ev = Rf.evaluate_policy_matrix(arr, PI, pinned, gamma)
             for i in range(len(S)):
@@ -168,6 +179,15 @@ def run_case(case, rng):
                        f"gain[{S[i]!r}]={g[i]!r} LP optimum={gstar[i]!r}", **facts)
         ig = float(res.initial_gain)
         case.check(abs(ig - sum(p * g[arr.si[s]] for s, p in sp.init)) <= 1e-9 * scale, "initial_gain!=E[state_gain]", repr(ig), **facts)
+        # action gains: the expected gain of the successor
+        GA = Rd.mat(res.action_gain, S, A)
+        Tm, _ = Rf._masked(arr, pinned)
+        Gref = np.einsum("san,n->sa", Tm, g)
+        badg = [(i, j) for i in range(len(S)) for j in range(len(A))
+                if arr.avail[i, j] and not pinned[i] and abs(GA[i, j] - Gref[i, j]) > tol]
+        case.count("action_gain_entries_compared", int(arr.avail.sum()))
+        case.check(not badg, "action_gain!=expected-gain-of-the-successor",
+                   lambda: f"at {[(S[i], A[j], GA[i, j], Gref[i, j]) for i, j in badg[:2]]!r}", **facts)
         if ok_rows:
             gp = Gn.gain_of_policy(arr, PI, pinned)
             for i in range(len(S)):
